@@ -384,6 +384,20 @@ def flaky(x='fx'):
   return vfx.rec('flaky', locals())
 
 
+class Scaler:
+  """A method reachable as Scaler.scale (plain function) and as
+  SCALER.scale (bound method)."""
+
+  def scale(self, v='dv', bias='db'):
+    return vfx.rec('Scaler.scale', locals())
+
+  def __canon__(self):
+    return ('Scaler-instance',)
+
+
+SCALER = Scaler()
+
+
 class MakerBase:
   """Classmethod inherited by a subclass (bound-method pyrefs)."""
 
